@@ -124,7 +124,7 @@ fn run<T: Sc>(case: &FamCase) -> Check {
         return Ok(out);
     }
     out.nontrivial = case.alpha_start != case.alpha_true;
-    out.class(format!("S={}", case.s()));
+    out.class(crate::gen::s_label(case.s()));
     out.class(if case.w.is_some() { "weighted" } else { "unweighted" });
     for r in case.regime() {
         out.class(r);
